@@ -10,4 +10,6 @@ mkdir -p .build
 (cd harness && RUSTFLAGS="--cfg hctl_verif" CARGO_TARGET_DIR=../.build/target cargo build --release --offline 2>&1 | tail -3)
 # extraction sanity: the extracted driver must print what the kernel computed (ExtractionSanity.v)
 .build/ocaml/driver ocaml/sanity_cases.txt | diff - ocaml/sanity_expected.txt || { echo "EXTRACTION-SANITY-FAILED"; exit 1; }
+# compile every property file once (theorem statements + Print Assumptions), in parallel
+python3 -m vlib.run warm
 echo setup done
